@@ -13,6 +13,7 @@ package simrt
 
 import (
 	"fmt"
+	"reflect"
 	"runtime/debug"
 	"strconv"
 	"unsafe"
@@ -24,6 +25,12 @@ type Config struct {
 	Chooser Chooser // nil = never pre-empt, lowest task id on forced switches
 	// RecordSwitchPairs bounds the number of distinct (preempted site, resumed site) pairs kept.
 	RecordSwitchPairs int
+	// SelectSeed seeds the choice among several ready clauses of a select; SelectReplay, if non-nil,
+	// dictates the choices instead (in order; exhausted = first ready clause).
+	SelectSeed   uint64
+	SelectReplay []int
+	// TraceLog, if true, keeps the full switch log (task, site, next task, step) for debugging.
+	TraceLog bool
 }
 
 // LeakInfo describes a task that is alive and disabled.
@@ -68,6 +75,9 @@ type Result struct {
 	ChanOps     int64
 	Rendezvous  int64
 	AbortSite   int // site at which the run was aborted (budget), 0 if unknown
+	Trace       [][4]int64
+	// SelectChoices are the choices made among several ready clauses of select statements.
+	SelectChoices []int
 }
 
 type abortPanic struct{}
@@ -96,9 +106,10 @@ const (
 	reqBlockForever
 	reqLockFail
 	reqUnlock
+	reqSelect
 )
 
-var kindName = [...]string{"yield", "spawn", "exit", "maindone", "send", "recv", "close", "opdone", "idle", "nilchan", "lock", "unlock"}
+var kindName = [...]string{"yield", "spawn", "exit", "maindone", "send", "recv", "close", "opdone", "idle", "nilchan", "lock", "unlock", "select"}
 
 type request struct {
 	kind  reqKind
@@ -109,6 +120,16 @@ type request struct {
 	cap   int
 	site  int
 	pv    *TaskPanic
+	cases []selCaseReq // select
+	dflt  bool         // select has a default clause
+}
+
+// selCaseReq is one communication clause of a select as the scheduler sees it.
+type selCaseReq struct {
+	kind reqKind // reqSend or reqRecv
+	ch   uintptr
+	cap  int
+	ref  interface{}
 }
 
 const (
@@ -119,6 +140,7 @@ const (
 type resumeMsg struct {
 	abort bool
 	mode  int
+	sel   int // select: index of the clause that was chosen (-1 = default)
 }
 
 type taskState uint8
@@ -143,6 +165,8 @@ type task struct {
 	blockSite int
 	wakeMode  int
 	prio      int64
+	sel       []selCaseReq // non-nil while blocked in a select
+	selIdx    int
 }
 
 type chanState struct {
@@ -165,24 +189,27 @@ type Sim struct {
 	budget    int64
 	aborted   bool
 	nopreempt int
+	quiet     int // >0: yields neither advance time nor switch (simulator-internal callbacks into instrumented code)
 	current   *task
 
 	// scheduler-owned
-	tasks       []*task
-	chans       map[uintptr]*chanState
-	chooser     Chooser
-	res         Result
-	pendingDone int
-	rvFrom      *task
-	avoid       *task
-	lockRetries int
-	afterDone   []*task
-	mainDone    bool
-	finished    bool
-	abortQueue  []*task
-	aborting    *task
-	idleInfo    []LeakInfo
-	runnableBuf []*task
+	tasks        []*task
+	chans        map[uintptr]*chanState
+	chooser      Chooser
+	res          Result
+	pendingDone  int
+	rvFrom       *task
+	avoid        *task
+	lockRetries  int
+	selRNG       *RNG
+	selReplayPos int
+	afterDone    []*task
+	mainDone     bool
+	finished     bool
+	abortQueue   []*task
+	aborting     *task
+	idleInfo     []LeakInfo
+	runnableBuf  []*task
 }
 
 var cur *Sim
@@ -271,7 +298,7 @@ func mainExit(s *Sim, main *task) {
 //go:norace
 func Yield(site int) {
 	s := cur
-	if s == nil {
+	if s == nil || s.quiet > 0 {
 		return
 	}
 	s.steps++
@@ -407,6 +434,25 @@ func Idle() []LeakInfo {
 	s.call(request{kind: reqIdle, t: s.current})
 	return s.idleInfo
 }
+
+// quietly runs f with the step clock stopped: the simulator itself calls back into instrumented
+// code (String and Position methods of map keys while ordering them), in an order that follows
+// Go's native map iteration; those calls must leave no trace in simulated time or in the schedule.
+//
+//go:norace
+func quietly(f func()) {
+	s := cur
+	if s == nil {
+		f()
+		return
+	}
+	s.quiet++
+	defer endQuiet(s)
+	f()
+}
+
+//go:norace
+func endQuiet(s *Sim) { s.quiet-- }
 
 // Atomically runs f with pre-emption disabled (blocking operations still switch).
 //
@@ -700,64 +746,77 @@ func (s *Sim) handle(r request) {
 	case reqBlockForever:
 		s.block(t, r.kind, 0, r.site)
 		s.schedule(nil, true)
-	case reqSend:
+	case reqSend, reqRecv:
 		s.res.ChanOps++
-		c := s.chanOf(r.ch, r.cap, r.ref)
-		switch {
-		case c.closed:
-			s.proceedNow(t)
-		case len(c.recvq) > 0:
-			p := c.recvq[0]
-			c.recvq = c.recvq[1:]
-			s.rvFrom = t
-			s.rendezvous(t, p)
-		case c.count < c.cap:
-			c.count++
-			s.proceedNow(t)
-		default:
-			c.sendq = append(c.sendq, t)
-			s.block(t, reqSend, r.ch, r.site)
+		if !s.chanOp(t, r.kind, r.ch, r.cap, r.ref) {
+			c := s.chanOf(r.ch, r.cap, r.ref)
+			if r.kind == reqSend {
+				c.sendq = append(c.sendq, t)
+			} else {
+				c.recvq = append(c.recvq, t)
+			}
+			s.block(t, r.kind, r.ch, r.site)
 			s.schedule(nil, true)
 		}
-	case reqRecv:
+	case reqSelect:
 		s.res.ChanOps++
-		c := s.chanOf(r.ch, r.cap, r.ref)
-		switch {
-		case c.count > 0:
-			c.count--
-			if len(c.sendq) > 0 {
-				// a blocked sender gets the freed slot, but may only run once the receive happened
-				p := c.sendq[0]
-				c.sendq = c.sendq[1:]
-				c.count++
-				s.afterDone = append(s.afterDone, p)
+		var ready []int
+		for i, cs := range r.cases {
+			if cs.ch == 0 {
+				continue
 			}
-			s.proceedNow(t)
-		case len(c.sendq) > 0:
-			p := c.sendq[0]
-			c.sendq = c.sendq[1:]
-			s.rvFrom = t
-			s.rendezvous(p, t)
-		case c.closed:
-			s.proceedNow(t)
+			c := s.chanOf(cs.ch, cs.cap, cs.ref)
+			if cs.kind == reqSend && (c.closed || s.live(&c.recvq, cs.ch, reqRecv) || c.count < c.cap) {
+				ready = append(ready, i)
+			}
+			if cs.kind == reqRecv && (c.count > 0 || s.live(&c.sendq, cs.ch, reqSend) || c.closed) {
+				ready = append(ready, i)
+			}
+		}
+		switch {
+		case len(ready) > 0:
+			// Go picks uniformly among the ready clauses; here the run's PRNG does
+			i := ready[0]
+			if len(ready) > 1 {
+				i = ready[s.selChoice(len(ready))]
+			}
+			t.selIdx = i
+			cs := r.cases[i]
+			if !s.chanOp(t, cs.kind, cs.ch, cs.cap, cs.ref) {
+				panic("simrt: a ready select clause blocked")
+			}
+		case r.dflt:
+			t.selIdx = -1
+			t.wakeMode = modeProceed
+			s.schedule(t, false)
 		default:
-			c.recvq = append(c.recvq, t)
-			s.block(t, reqRecv, r.ch, r.site)
+			t.sel = r.cases
+			for _, cs := range r.cases {
+				if cs.ch == 0 {
+					continue
+				}
+				c := s.chanOf(cs.ch, cs.cap, cs.ref)
+				if cs.kind == reqSend {
+					c.sendq = append(c.sendq, t)
+				} else {
+					c.recvq = append(c.recvq, t)
+				}
+			}
+			s.block(t, reqSelect, 0, r.site)
 			s.schedule(nil, true)
 		}
 	case reqClose:
 		s.res.ChanOps++
 		c := s.chanOf(r.ch, r.cap, r.ref)
 		c.closed = true
-		for _, p := range c.recvq {
+		for p := s.pop(&c.recvq, r.ch, reqRecv); p != nil; p = s.pop(&c.recvq, r.ch, reqRecv) {
 			p.state = stRunnable
 			p.wakeMode = modeProceed
 		}
-		for _, p := range c.sendq {
+		for p := s.pop(&c.sendq, r.ch, reqSend); p != nil; p = s.pop(&c.sendq, r.ch, reqSend) {
 			p.state = stRunnable
 			p.wakeMode = modeProceed
 		}
-		c.recvq, c.sendq = nil, nil
 		s.schedule(t, false)
 	case reqOpDone:
 		s.pendingDone--
@@ -770,7 +829,7 @@ func (s *Sim) handle(r request) {
 				p.state = stRunnable
 				s.pendingDone = 1
 				s.current = p
-				p.resume <- resumeMsg{mode: modeNeedDone}
+				p.resume <- resumeMsg{mode: modeNeedDone, sel: p.selIdx}
 				return
 			}
 			from := s.rvFrom
@@ -794,6 +853,121 @@ func (s *Sim) noteExit(r request) {
 	}
 }
 
+// waits reports whether p is blocked on (ch, kind), as a plain operation or as a select clause.
+//
+//go:norace
+func waits(p *task, ch uintptr, kind reqKind) int {
+	if p.state != stBlocked {
+		return -2
+	}
+	if p.sel == nil {
+		if p.blockKind == kind && p.blockCh == ch {
+			return -1
+		}
+		return -2
+	}
+	for i, cs := range p.sel {
+		if cs.kind == kind && cs.ch == ch {
+			return i
+		}
+	}
+	return -2
+}
+
+// live prunes stale entries from the head of q and reports whether a task still waits there.
+//
+//go:norace
+func (s *Sim) live(q *[]*task, ch uintptr, kind reqKind) bool {
+	for len(*q) > 0 && waits((*q)[0], ch, kind) == -2 {
+		*q = (*q)[1:]
+	}
+	return len(*q) > 0
+}
+
+// pop removes and returns the first task waiting on (ch, kind); a select waiter is resolved to
+// that clause (its entries in other queues become stale).
+//
+//go:norace
+func (s *Sim) pop(q *[]*task, ch uintptr, kind reqKind) *task {
+	if !s.live(q, ch, kind) {
+		return nil
+	}
+	p := (*q)[0]
+	*q = (*q)[1:]
+	if i := waits(p, ch, kind); i >= 0 {
+		p.selIdx = i
+		p.sel = nil
+		p.blockKind, p.blockCh = kind, ch
+	}
+	return p
+}
+
+// chanOp performs the model side of a send or receive by t; it returns false if t has to wait.
+//
+//go:norace
+func (s *Sim) chanOp(t *task, kind reqKind, ch uintptr, capacity int, ref interface{}) bool {
+	c := s.chanOf(ch, capacity, ref)
+	if kind == reqSend {
+		switch {
+		case c.closed:
+			s.proceedNow(t)
+		case s.live(&c.recvq, ch, reqRecv):
+			p := s.pop(&c.recvq, ch, reqRecv)
+			s.rvFrom = t
+			s.rendezvous(t, p)
+		case c.count < c.cap:
+			c.count++
+			s.proceedNow(t)
+		default:
+			return false
+		}
+		return true
+	}
+	switch {
+	case c.count > 0:
+		c.count--
+		if s.live(&c.sendq, ch, reqSend) {
+			// a blocked sender gets the freed slot, but may only run once the receive happened
+			p := s.pop(&c.sendq, ch, reqSend)
+			c.count++
+			s.afterDone = append(s.afterDone, p)
+		}
+		s.proceedNow(t)
+	case s.live(&c.sendq, ch, reqSend):
+		p := s.pop(&c.sendq, ch, reqSend)
+		s.rvFrom = t
+		s.rendezvous(p, t)
+	case c.closed:
+		s.proceedNow(t)
+	default:
+		return false
+	}
+	return true
+}
+
+// selChoice draws which of n ready select clauses is taken.
+//
+//go:norace
+func (s *Sim) selChoice(n int) int {
+	if s.selReplayPos < len(s.cfg.SelectReplay) {
+		i := s.cfg.SelectReplay[s.selReplayPos]
+		s.selReplayPos++
+		if i >= 0 && i < n {
+			s.res.SelectChoices = append(s.res.SelectChoices, i)
+			return i
+		}
+	}
+	if s.selRNG == nil {
+		s.selRNG = NewRNG(s.cfg.SelectSeed ^ 0x5e1ec7)
+	}
+	i := 0
+	if s.cfg.SelectReplay == nil {
+		i = s.selRNG.Intn(n)
+	}
+	s.res.SelectChoices = append(s.res.SelectChoices, i)
+	return i
+}
+
 // proceedNow lets t perform its real (non-blocking) channel operation immediately and report
 // completion before anything else is scheduled, so that the model and the real channel never
 // disagree while another task runs.
@@ -803,7 +977,7 @@ func (s *Sim) proceedNow(t *task) {
 	s.pendingDone = 1
 	s.rvFrom = t
 	s.current = t
-	t.resume <- resumeMsg{mode: modeNeedDone}
+	t.resume <- resumeMsg{mode: modeNeedDone, sel: t.selIdx}
 }
 
 // rendezvous lets sender snd and receiver rcv perform their real channel operations now; both
@@ -814,8 +988,8 @@ func (s *Sim) rendezvous(snd, rcv *task) {
 	s.res.Rendezvous++
 	snd.state, rcv.state = stRunnable, stRunnable
 	s.pendingDone = 2
-	snd.resume <- resumeMsg{mode: modeNeedDone}
-	rcv.resume <- resumeMsg{mode: modeNeedDone}
+	snd.resume <- resumeMsg{mode: modeNeedDone, sel: snd.selIdx}
+	rcv.resume <- resumeMsg{mode: modeNeedDone, sel: rcv.selIdx}
 }
 
 //go:norace
@@ -945,6 +1119,9 @@ func (s *Sim) resume(from, next *task) {
 		if prev != nil {
 			ps, pid = prev.lastSite, prev.id
 		}
+		if s.cfg.TraceLog {
+			s.res.Trace = append(s.res.Trace, [4]int64{int64(pid), int64(ps), int64(next.id), s.steps})
+		}
 		h := s.res.TraceHash
 		h = mix(h ^ uint64(pid+1)<<40 ^ uint64(uint32(ps))<<8 ^ uint64(next.id+1))
 		s.res.TraceHash = h
@@ -954,7 +1131,7 @@ func (s *Sim) resume(from, next *task) {
 	}
 	s.current = next
 	s.setNextStop()
-	m := resumeMsg{mode: next.wakeMode}
+	m := resumeMsg{mode: next.wakeMode, sel: next.selIdx}
 	next.wakeMode = modeProceed
 	next.resume <- m
 }
@@ -997,4 +1174,96 @@ func mix(x uint64) uint64 {
 	x = (x ^ (x >> 30)) * 0xbf58476d1ce4e5b9
 	x = (x ^ (x >> 27)) * 0x94d049bb133111eb
 	return x ^ (x >> 31)
+}
+
+// ---- select ------------------------------------------------------------------------------
+
+// SelCase is one communication clause handed to Select by rewritten code.
+type SelCase struct {
+	req selCaseReq
+	do  func()        // performs the real operation of this clause
+	rc  reflect.Value // the channel, for the real select outside a simulation
+	sv  reflect.Value // send value
+	set func(reflect.Value, bool)
+}
+
+// CaseSend builds the clause `case c <- v:`.
+func CaseSend[T any](c chan<- T, v T) SelCase {
+	return SelCase{req: selCaseReq{kind: reqSend, ch: chanIDSend(c), cap: cap(c), ref: c}, do: func() { c <- v },
+		rc: reflect.ValueOf(c), sv: reflect.ValueOf(&v).Elem()}
+}
+
+// CaseRecv builds the clause `case *p, *ok = <-c:` (p and ok may be nil).
+func CaseRecv[T any](c <-chan T, p *T, ok *bool) SelCase {
+	store := func(v T, k bool) {
+		if p != nil {
+			*p = v
+		}
+		if ok != nil {
+			*ok = k
+		}
+	}
+	return SelCase{req: selCaseReq{kind: reqRecv, ch: chanIDRecv(c), cap: cap(c), ref: c}, do: func() { v, k := <-c; store(v, k) },
+		rc: reflect.ValueOf(c), set: func(rv reflect.Value, k bool) {
+			var v T
+			if k && rv.IsValid() {
+				v, _ = rv.Interface().(T)
+			}
+			store(v, k)
+		}}
+}
+
+// Zero returns the zero value of the element type of c (to declare receive temporaries).
+func Zero[T any](c <-chan T) T { var z T; return z }
+
+// Select replaces a select statement: it returns the index of the clause that communicated, or
+// -1 for the default clause.
+func Select(site int, hasDefault bool, cases ...SelCase) int {
+	s := getCur()
+	if s == nil {
+		// the real thing, outside a simulation
+		rcs := make([]reflect.SelectCase, 0, len(cases)+1)
+		for _, c := range cases {
+			if c.req.kind == reqSend {
+				rcs = append(rcs, reflect.SelectCase{Dir: reflect.SelectSend, Chan: c.rc, Send: c.sv})
+			} else {
+				rcs = append(rcs, reflect.SelectCase{Dir: reflect.SelectRecv, Chan: c.rc})
+			}
+		}
+		if hasDefault {
+			rcs = append(rcs, reflect.SelectCase{Dir: reflect.SelectDefault})
+		}
+		i, rv, ok := reflect.Select(rcs)
+		if hasDefault && i == len(cases) {
+			return -1
+		}
+		if cases[i].set != nil {
+			cases[i].set(rv, ok)
+		}
+		return i
+	}
+	reqs := make([]selCaseReq, len(cases))
+	for i, c := range cases {
+		reqs[i] = c.req
+	}
+	idx, mode := selectReq(s, site, hasDefault, reqs)
+	if idx >= 0 {
+		cases[idx].do()
+	}
+	after(s, mode)
+	return idx
+}
+
+//go:norace
+func selectReq(s *Sim, site int, hasDefault bool, reqs []selCaseReq) (int, int) {
+	if s.aborted {
+		panic(abortPanic{})
+	}
+	t := s.current
+	s.steps++
+	m := s.call(request{kind: reqSelect, t: t, site: site, cases: reqs, dflt: hasDefault})
+	if m.mode == modeNeedDone {
+		return m.sel, modeNeedDone | (t.id+1)<<8
+	}
+	return m.sel, modeProceed
 }
